@@ -43,7 +43,7 @@ fn stream(r: &mut Rng, chunked: bool, eintr: bool) -> StreamSpec {
         ChunkSpec::Whole
     };
     let eintr = if eintr { EintrSpec::Seeded { seed: r.next_u64(), den: *r.pick(&[2u32, 5, 20]) } } else { EintrSpec::Never };
-    StreamSpec { chunks, eintr, error_at: None }
+    StreamSpec { chunks, eintr, error_at: None, error_flavor: 0 }
 }
 
 /// A variant of `job` that shares its names: 1-2 token-level changes (a token retyped as another
@@ -124,8 +124,10 @@ pub fn c05_world(seed: u64, corpus: &[Program]) -> (World, Dims) {
         if r.chance(1, 2) {
             let n = jobs[j].source.0.len() as u64;
             jobs[j].reader.error_at = Some(r.below(n + 1));
+            jobs[j].reader.error_flavor = r.below(4) as u8;
         } else {
             jobs[j].writer.error_at = Some(r.below(2000));
+            jobs[j].writer.error_flavor = r.below(4) as u8;
         }
     }
     // placement: shuffle job indices over threads, every thread gets at least one
@@ -349,12 +351,14 @@ pub fn c16_world(seed: u64, corpus: &[Program]) -> World {
         job.reader = stream(&mut r, true, true);
         if r.chance(1, 2) {
             job.reader.error_at = Some(r.below(job.source.0.len() as u64 + 1));
+            job.reader.error_flavor = r.below(4) as u8;
         }
     }
     if r.chance(1, 4) {
         job.writer = stream(&mut r, true, true);
         if r.chance(1, 2) {
             job.writer.error_at = Some(r.below(3000));
+            job.writer.error_flavor = r.below(4) as u8;
         }
     }
     let mut w = World::solo("C16", job);
@@ -376,7 +380,7 @@ pub fn c16_world(seed: u64, corpus: &[Program]) -> World {
 // ---------------------------------------------------------------- directed delivery worlds
 
 /// Number of directed delivery variants per program.
-pub const DELIVERY_VARIANTS: usize = 14;
+pub const DELIVERY_VARIANTS: usize = 26;
 
 /// The v-th directed delivery of program `pi`: chunk boundaries at every byte / every 2nd, 3rd, 7th byte,
 /// `Interrupted` on every other call, a sink that takes 1 or 2 bytes per call, hard errors at the
@@ -385,8 +389,8 @@ pub fn delivery_world(prop: &str, corpus: &[Program], pi: usize, v: usize) -> Wo
     let p = &corpus[pi];
     let mut j = job_of(p);
     let n = p.source.len() as u64;
-    let fixed = |k: u32| StreamSpec { chunks: ChunkSpec::Fixed(k), eintr: EintrSpec::Never, error_at: None };
-    let intr = |k: u32, seed: u64| StreamSpec { chunks: ChunkSpec::Fixed(k), eintr: EintrSpec::Seeded { seed, den: 2 }, error_at: None };
+    let fixed = |k: u32| StreamSpec { chunks: ChunkSpec::Fixed(k), eintr: EintrSpec::Never, error_at: None, error_flavor: 0 };
+    let intr = |k: u32, seed: u64| StreamSpec { chunks: ChunkSpec::Fixed(k), eintr: EintrSpec::Seeded { seed, den: 2 }, error_at: None, error_flavor: 0 };
     match v {
         0 => j.reader = fixed(1),
         1 => j.reader = fixed(2),
@@ -404,7 +408,22 @@ pub fn delivery_world(prop: &str, corpus: &[Program], pi: usize, v: usize) -> Wo
         10 => j.reader.error_at = Some(n / 2),
         11 => j.reader.error_at = Some(n.saturating_sub(1)),
         12 => j.writer.error_at = Some(0),
-        _ => j.writer.error_at = Some(200),
+        13 => j.writer.error_at = Some(200),
+        _ => {
+            // a failing sink at a sweep of offsets, with every error shape (payload, kind only, OS, Ok(0));
+            // variants 14..=25: offsets 60, 140, .. up to ~1500 bytes
+            let k = (v - 14) as u64;
+            j.writer.error_at = Some(60 + 80 * k + 45 * (k % 3) * k);
+            j.writer.error_flavor = (k % 4) as u8;
+            if k % 2 == 1 {
+                j.writer.chunks = ChunkSpec::Fixed(7);
+            }
+            if k >= 8 {
+                j.reader.error_at = Some((n * (k - 7)) / 5);
+                j.reader.error_flavor = (k % 4) as u8;
+                j.writer.error_at = None;
+            }
+        }
     }
     j.label = format!("{} delivery#{}", p.name, v);
     let mut w = World::solo(prop, j);
